@@ -2036,14 +2036,21 @@ impl<const MIN_ALIGN: usize> Bump<MIN_ALIGN> {
             let mut base_size = (current_layout.size() - FOOTER_SIZE)
                 .checked_mul(2)?
                 .max(min_new_chunk_size);
+            let mut tried_zero_size = false;
             let chunk_memory_details = iter::from_fn(|| {
                 let bypass_min_chunk_size_for_small_limits = matches!(self.allocation_limit(), Some(limit) if layout.size() < limit
                             && base_size >= layout.size()
                             && limit < DEFAULT_CHUNK_SIZE_WITHOUT_FOOTER
                             && self.allocated_bytes() == 0);
 
-                if base_size >= min_new_chunk_size || bypass_min_chunk_size_for_small_limits {
+                if !tried_zero_size
+                    && (base_size >= min_new_chunk_size || bypass_min_chunk_size_for_small_limits)
+                {
                     let size = base_size;
+                    // Halving zero yields zero again: once a zero-sized chunk
+                    // has been tried (and refused) there is nothing smaller
+                    // left, so stop instead of retrying it forever.
+                    tried_zero_size = size == 0;
                     base_size /= 2;
                     Self::new_chunk_memory_details(Some(size), layout)
                 } else {
